@@ -749,3 +749,45 @@ func hrNormalisedPathSpelling(w *World, r *Report, rule string) {
 	})
 	r.Check(ok && n >= 1, rule, "lookupNode/request-spelling-only-for-literal-parts", f.Pos(), "the request's own text of a part goes into the normalised path only under a found literal child (%d sites); a part matched by a parameter is written with the tree's parameter name", n)
 }
+
+// hrResponseNilGuard: while the flows are re-selected after an early response the
+// stream is typed as a response although no response message exists; the filter
+// qualifiers call a method on APIStream.GetResponse() only where that value was
+// found present.
+func hrResponseNilGuard(w *World, r *Report, rule string) {
+	n := 0
+	var bad []string
+	for _, f := range w.lunarFns {
+		if f.Origin() != nil || fnPkgPath(f) != pkgFilter {
+			continue
+		}
+		Instrs(f, func(in ssa.Instruction) {
+			c, ok := in.(*ssa.Call)
+			if !ok || !c.Call.IsInvoke() {
+				return
+			}
+			recv, isC := peel(c.Call.Value).(*ssa.Call)
+			if !isC || !isCallTo(recv, "APIStreamI).GetResponse") {
+				return
+			}
+			n++
+			guarded := false
+			for _, cd := range CondsOf(c.Block()) {
+				if g, isG := peel(cd.V).(*ssa.Call); isG && !cd.Pol && isCallTo(g, "utils.IsInterfaceNil") && len(g.Call.Args) == 1 && peel(g.Call.Args[0]) == ssa.Value(recv) {
+					guarded = true
+				}
+			}
+			if op, _ := FindRel(Rels(c.Block()), func(v ssa.Value) bool { return peel(v) == ssa.Value(recv) }, isNilConst); op == "!=" {
+				guarded = true
+			}
+			if !guarded {
+				bad = append(bad, w.Pos(posOf(c))+" "+c.Call.Method.Name())
+			}
+		})
+	}
+	if n == 0 {
+		r.Undec(rule, "filter/response-used-only-when-present", token.NoPos, "no use of APIStream.GetResponse() found in the filter package")
+		return
+	}
+	r.Check(len(bad) == 0, rule, "filter/response-used-only-when-present", token.NoPos, "the flow qualifiers call a method on APIStream.GetResponse() only where it was found non-nil (%d uses; unguarded: %v): the selection for an early response runs without a response message", n, bad)
+}
